@@ -69,12 +69,39 @@ class H5Attrs:
         self.model.attrs.setdefault(self.path, {})[idx[0]] = v
         I.trace.append(_op("H5AttrWrite", path=self.path, key=idx[0], value=v, file=self.model.name, where=I.where(node, ms)))
 
+    def sa_getattr(self, I, attr, node, ms):
+        if attr == "create":
+            return H5AttrCreate(self)
+        raise Unsupported("h5py attribute-manager member %s" % attr)
+
     def sa_index(self, I, idx, node, ms):
         d = self.model.attrs.get(self.path, {})
         if idx[0] not in d:
             raise RaisedInAnalysed("KeyError", "h5py: attribute %r missing on %r" % (idx[0], self.path), I.where(node, ms))
         I.trace.append(_op("H5AttrRead", path=self.path, key=idx[0], file=self.model.name, where=I.where(node, ms)))
         return d[idx[0]]
+
+
+class H5AttrCreate:
+    """attrs.create(name, data, shape=None, dtype=None): with an explicit dtype the value is converted on the way to the file"""
+
+    def __init__(self, attrs):
+        self.attrs = attrs
+
+    def sa_call(self, I, args, kwargs, node, ms):
+        from .values import DType, Opaque
+        names = ("name", "data", "shape", "dtype")
+        kw = dict(zip(names, args))
+        kw.update(kwargs)
+        if "name" not in kw or "data" not in kw:
+            raise Unsupported("attrs.create without name/data")
+        v, dt = kw["data"], kw.get("dtype")
+        if kw.get("shape") is not None:
+            raise Unsupported("attrs.create with an explicit shape")
+        if dt is not None and not (isinstance(dt, DType) and dt.name == "float64"):
+            v = Opaque("converted to %r" % (dt,), (v, dt))      # not the caller's value any more (narrowing for float32)
+        self.attrs.sa_store(I, (kw["name"],), v, node, ms)
+        return None
 
 
 class H5Method:
